@@ -558,6 +558,25 @@ class Folder:
                     return UNKNOWN
                 kwargs.update(d)
         f = e.func
+        # a module-level functools.partial(F, ...) called by name is the
+        # call of F with the frozen arguments put first / underneath
+        if isinstance(f, ast.Name) and f.id not in env:
+            b = self.world.lookup(mod, f.id)
+            pv = getattr(b, "value", None) if b is not None and getattr(
+                b, "kind", None) == "expr" else None
+            if isinstance(pv, ast.Call) and ast.unparse(pv.func) in (
+                    "partial", "functools.partial") and pv.args and not any(
+                        isinstance(a, ast.Starred) for a in pv.args) and \
+                    all(k.arg for k in pv.keywords) and \
+                    getattr(b, "mod", mod) == mod:
+                given = {k.arg for k in e.keywords if k.arg}
+                merged = ast.Call(
+                    pv.args[0], list(pv.args[1:]) + list(e.args),
+                    [k for k in pv.keywords if k.arg not in given] +
+                    list(e.keywords))
+                ast.copy_location(merged, e)
+                ast.fix_missing_locations(merged)
+                return self._call(merged, env, mod, cls, ep)
         # str.maketrans(...) on constants: a translation table (a dict)
         if isinstance(f, ast.Attribute) and f.attr == "maketrans" and \
                 isinstance(f.value, ast.Name) and f.value.id in (
